@@ -58,6 +58,7 @@ const (
 	DiagControllerLevelMissingTag              DiagnosticCode = "controller-missing-tag"
 	DiagReceiverInvalidBody                    DiagnosticCode = "receiver-invalid-body"
 	DiagReceiverParamNotPrimitive              DiagnosticCode = "receiver-parameter-not-primitive"
+	DiagReceiverParamNameCollision             DiagnosticCode = "receiver-parameter-name-collision"
 	DiagReceiverRetValsInvalidSignature        DiagnosticCode = "receiver-return-values-invalid-signature"
 	DiagReceiverRetValsIsNotError              DiagnosticCode = "receiver-return-value-is-not-an-error"
 	DiagReceiverMissingSecurity                DiagnosticCode = "receiver-missing-security"
